@@ -336,7 +336,7 @@ fn extract_frame(prefix: &'static [u8]) {
 
 macro_rules! frame {
     ($name:ident, $prefix:expr) => {
-        #[cfg_attr(kani, kani::proof, kani::unwind(8))]
+        #[cfg_attr(kani, kani::proof, kani::unwind(66))]
         #[cfg_attr(not(kani), test)]
         fn $name() {
             extract_frame($prefix);
